@@ -234,6 +234,8 @@ impl State {
 //@use corewords.fns State::load_core#w_newline
 //@use corewords.fns State::load_core#w_str_tonumber
 //@use corewords.fns State::load_core#w_error
+//@use corewords.fns State::load_core#w_sort
+//@use corewords.fns State::load_core#w_reverse
 
 //@use coll.fns ::let_map_begin
 //@use coll.fns ::let_map_end
@@ -311,6 +313,18 @@ impl State {
 //@use coll.fns ::core_word_newline
 //@use coll.fns ::core_word_println
 //@use coll.fns ::core_word_exit
+// ---- reverse / sort: ASSUMED std / rpds meaning of the single expressions they are made of
+#[verifier::external_body] fn verif_vec_reversed(v: &Xvec) -> (r: Xvec) ensures r@ == v@.reverse() { unimplemented!() }
+#[verifier::external_body] fn verif_vec_to_std(v: &Xvec) -> (r: Vec<Cell>) ensures r@ == v@ { unimplemented!() }
+#[verifier::external_body] fn verif_vec_from_std(v: Vec<Cell>) -> (r: Xvec) ensures r@ == v@ { unimplemented!() }
+// `a` sorted ascending is `b`: same multiset, adjacent elements in order under `Ord for Cell` (uninterpreted: see D17 for what that order is)
+pub uninterp spec fn cell_le(a: Cell, b: Cell) -> bool;
+spec fn sorted_perm(a: Seq<Cell>, b: Seq<Cell>) -> bool {
+    a.to_multiset() == b.to_multiset() && forall|i: int, j: int| 0 <= i < j < b.len() ==> cell_le(b[i], b[j])
+}
+#[verifier::external_body] fn verif_slice_sort(v: &mut Vec<Cell>) ensures sorted_perm(old(v)@, final(v)@) { unimplemented!() }
+//@use coll.fns ::core_word_reverse
+//@use coll.fns ::core_word_sort
 // ---- the printer of vectors, maps and integers (arms of fmt::Debug for Cell)
 //@include preamble/fmt_sink.rs
 // rpds RedBlackTreeMap::iter (ASSUMED): the entries in key order
